@@ -191,6 +191,25 @@ class Executor:
             run.unfresh.update(unfresh)
         run.success = False
 
+    def note_amended_inputs(self, job_i: int, step: Step):
+        """Remember the stored hashes of the inputs that a running step has just amended.
+
+        Must be called inside a database transaction.
+        The inputs known before the command started are in `Run.inp_hashes` already.
+        An amended input that is available now is added with the hash it has at this moment,
+        so that the check after the command notices when it changes while the command is
+        still running (e.g. because its producer runs again), like for any other input.
+        """
+        run = self.running.get(job_i)
+        if run is None:
+            return
+        for rec in step.inp_paths():
+            if rec.path not in run.inp_hashes and rec.state in (
+                FileState.BUILT,
+                FileState.CONFIRMED,
+            ):
+                run.inp_hashes[rec.path] = rec.hash
+
     def interrupt(self, sig: int):
         """Send a signal to all currently running step commands, or cancel a running hash."""
         for run in list(self.running.values()):
@@ -772,11 +791,17 @@ class Executor:
             inp_hashes = {}
             for rec in run.step.inp_paths():
                 if rec.state in (FileState.BUILT, FileState.CONFIRMED):
-                    # An input verified before the command started must still be what it was then.
-                    # Its stored hash may have been refreshed in the meantime,
-                    # because its producer ran again or another consumer failed on the change,
-                    # which must not hide the change from this run.
-                    inp_hashes[rec.path] = run.inp_hashes.get(rec.path, rec.hash)
+                    # An input verified before the command started (or when it was amended)
+                    # must still be what it was then.
+                    # When its stored hash was refreshed in the meantime,
+                    # because its producer ran again or another consumer failed on a change,
+                    # the command may have read the previous content:
+                    # comparing the file to the refreshed hash would hide that,
+                    # so the step must run again.
+                    before = run.inp_hashes.get(rec.path)
+                    if before is not None and before != rec.hash:
+                        run.unfresh.add(rec.path)
+                    inp_hashes[rec.path] = rec.hash
                 elif rec.path in run.inp_hashes:
                     # The input was available when the command started and no longer is:
                     # its producer was made pending, or another consumer found it missing.
